@@ -368,6 +368,57 @@ def const_pattern(repo: Repo, mod: Module, e: ast.AST, depth: int = 0) -> Option
     return None
 
 
+_RE_SUBSTITUTIONS = ("sub", "subn")
+_RE_ONE_SUBJECT = ("match", "fullmatch", "search", "split", "findall", "finditer")
+
+
+def re_function(mod: Module, func: ast.AST) -> Optional[str]:
+    """the function of the standard module `re` that a callee expression denotes (`re.sub`, `sub` after `from re import sub`, under
+    whatever alias the module imports them), or None"""
+    for st in ast.walk(mod.tree):
+        if isinstance(st, ast.Import) and isinstance(func, ast.Attribute) and isinstance(func.value, ast.Name):
+            if any(a.name == "re" and (a.asname or a.name) == func.value.id for a in st.names):
+                return func.attr
+        if isinstance(st, ast.ImportFrom) and st.module == "re" and not st.level and isinstance(func, ast.Name):
+            for a in st.names:
+                if (a.asname or a.name) == func.id:
+                    return a.name
+    return None
+
+
+def functional_regex_calls(repo: Repo, mod: Module, e: ast.AST) -> ast.AST:
+    """copy of e in which every use of a constant regular expression is spelled one way - the module-level function of `re`, by its bare
+    name, with the pattern text as first argument: `re.sub(P, r, s)`, `sub(P, r, s)`, `re.compile(P).sub(r, s)` and `NAME.sub(r, s)` for
+    a module-level NAME bound to `re.compile(P)` (here or in the module it is imported from) are all `sub(P, r, s)`; flags of the
+    compiled pattern become `flags=`.  Where the pattern is kept (in place, in a precompiled constant) is not part of what is computed.
+    Only the calls whose arguments mean the same in both forms are rewritten (sub / subn; the others with the subject alone: the
+    compiled methods take pos / endpos where the functions take flags)."""
+    import copy
+
+    class T(ast.NodeTransformer):
+        def visit_Call(self, c: ast.Call):  # noqa: N802
+            self.generic_visit(c)
+            if any(k.arg is None for k in c.keywords) or any(isinstance(a, ast.Starred) for a in c.args):
+                return c
+            fn = re_function(mod, c.func)
+            if fn in _RE_SUBSTITUTIONS + _RE_ONE_SUBJECT and c.args:
+                txt = fold_str(repo, mod, c.args[0], wrappers=())
+                if txt is None:
+                    return c
+                return ast.Call(func=ast.Name(id=fn, ctx=ast.Load()), args=[ast.Constant(value=txt)] + c.args[1:], keywords=c.keywords)
+            if isinstance(c.func, ast.Attribute) and c.func.attr in _RE_SUBSTITUTIONS + _RE_ONE_SUBJECT:
+                if c.func.attr in _RE_ONE_SUBJECT and (len(c.args) != 1 or c.keywords):
+                    return c
+                cp = const_pattern(repo, mod, c.func.value)
+                if cp is None:
+                    return c
+                kws = list(c.keywords) + ([ast.keyword(arg="flags", value=ast.Constant(value=cp[1]))] if cp[1] else [])
+                return ast.Call(func=ast.Name(id=c.func.attr, ctx=ast.Load()), args=[ast.Constant(value=cp[0])] + c.args, keywords=kws)
+            return c
+
+    return ast.fix_missing_locations(T().visit(copy.deepcopy(e)))
+
+
 def pattern_first_chars(pattern: str, flags: int = 0) -> set[Optional[int]]:
     """code points a match of the pattern can begin with, None standing for 'something that is not one literal character'
     (a class, a repeat, ...): {92} says every match begins with a backslash"""
